@@ -112,3 +112,19 @@ def in_finite(c):
         if c == x:
             return True
     return False
+
+
+# G3 (DESIGN 3): structural counters -- templates whose repetition counts are symbolic ints
+TEMPLATES = {
+    "heading-levels": [["rep", "#", 1, 5], " a\n\n", ["rep", "#", 1, 5], " b\n\n", ["rep", "#", 1, 5], " c\n"],
+    "list-indents": ["- a\n", ["rep", " ", 0, 5], "- b\n", ["rep", " ", 0, 7], "- c\n"],
+    "blank-lines-and-trailing-spaces": ["a", ["rep", " ", 0, 3], "\n", ["rep", "\n", 0, 3], "b", ["rep", " ", 0, 3], ["rep", "\n", 0, 2]],
+    "hashes-and-spaces": [["rep", "#", 1, 3], ["rep", " ", 0, 3], "a", ["rep", " ", 0, 2], ["rep", "#", 0, 2], "\n"],
+    "ordered-list-indents": ["1. a\n", ["rep", " ", 0, 4], "1. b\n", ["rep", " ", 0, 6], "c\n"],
+    "quote-depth": [["rep", ">", 1, 3], " a\n", ["rep", ">", 0, 3], ["rep", " ", 0, 2], "b\n"],
+    "fence-lengths": [["rep", "`", 3, 5], "x\n", "c\n", ["rep", "`", 2, 5], "\n", "d\n"],
+}
+
+
+def g3_shards(names=None):
+    return [{"template": TEMPLATES[n], "template_name": n} for n in (names or list(TEMPLATES))]
